@@ -70,9 +70,46 @@ func Binary(sigs map[string]Sig, names []string, minPages uint32, maxPages int64
 		idx := m.AddFunc(s.Params, s.Results, nil, b.Bytes())
 		m.ExportFunc(n, idx)
 	}
+	// The same functions once more, reached through a table: "indirect:<name>" does
+	// call_indirect on the slot that holds the imported host function.
+	for i, n := range names {
+		s := sigs[n]
+		b := wasmenc.NewB()
+		for k := range s.Params {
+			b.LocalGet(uint32(k))
+		}
+		b.I32Const(int32(i)).CallIndirect(m.AddType(s.Params, s.Results), 0)
+		idx := m.AddFunc(s.Params, s.Results, nil, b.Bytes())
+		m.ExportFunc(IndirectPrefix+n, idx)
+	}
+	all := make([]uint32, len(names))
+	for i := range all {
+		all[i] = uint32(i)
+	}
+	m.Tables = [][]byte{wasmenc.TableType(0x70, uint32(len(names)), int64(len(names)))}
+	m.Elems = [][]byte{wasmenc.ActiveElemFuncs(0, all)}
 	m.Mems = [][]byte{wasmenc.Limits(minPages, maxPages, false)}
 	m.Exports = append(m.Exports, wasmenc.Export{Name: "memory", Kind: wasmenc.KMem, Idx: 0})
 	return m.Encode()
+}
+
+// IndirectPrefix + a WASI function name is the export that calls it through call_indirect.
+const IndirectPrefix = "indirect:"
+
+// CallIndirect is Call through the table (call_indirect on the imported host function).
+func (p *Proxy) CallIndirect(ctx context.Context, name string, args ...uint64) (uint32, wz.Outcome) {
+	f := p.Mod.ExportedFunction(IndirectPrefix + name)
+	if f == nil {
+		return 0, wz.Outcome{Kind: wz.KOther, Detail: "no such wasi function " + name}
+	}
+	if len(args) != len(p.Sigs[name].Params) {
+		return 0, wz.Outcome{Kind: wz.KOther, Detail: fmt.Sprintf("harness: %s wants %d args, got %d", name, len(p.Sigs[name].Params), len(args))}
+	}
+	res, out := wz.SafeCall(ctx, f, args...)
+	if out.Kind == wz.KOK && len(res) > 0 {
+		return uint32(res[0]), out
+	}
+	return 0, out
 }
 
 // New creates WASI + proxy in rt. modCfg may be nil (default NewModuleConfig()).
